@@ -40,6 +40,7 @@ type Property struct {
 	Outside   []string
 	MinReach  []string // labels that must be reachable in at least one job
 	TVVectors int      // concrete twin vectors per sampled job
+	Solver    string   // solver command line (default: z3 -in)
 }
 
 var registry = map[string]*Property{}
@@ -130,6 +131,11 @@ func cmdCheck(args []string) int {
 	deadline := time.Time{}
 	if *budget > 0 {
 		deadline = t0.Add(*budget)
+	}
+	if prop.Solver != "" && os.Getenv("QSYM_SOLVER") == "" {
+		if _, err := execOutput(strings.Fields(prop.Solver)[0], "--version"); err == nil {
+			os.Setenv("QSYM_SOLVER", prop.Solver)
+		}
 	}
 	results := runJobs(ld, prop, jobs, *workers, *timeout, deadline, *verbose)
 
@@ -477,7 +483,11 @@ var solverVer string
 func solverVersion() string {
 	if solverVer == "" {
 		solverVer = "z3 (see `z3 --version`)"
-		if out, err := execOutput("z3", "--version"); err == nil {
+		bin := "z3"
+		if sv := os.Getenv("QSYM_SOLVER"); sv != "" {
+			bin = strings.Fields(sv)[0]
+		}
+		if out, err := execOutput(bin, "--version"); err == nil {
 			solverVer = strings.TrimSpace(out)
 		}
 	}
